@@ -524,7 +524,7 @@ impl<Octs: Octets + ?Sized> Message<Octs> {
             Err(_) => return None,
         };
 
-        for _ in 0..self.header_counts().ancount() + 1 {
+        for _ in 0..u32::from(self.header_counts().ancount()) + 1 {
             let mut found = false;
             for record in answer.clone() {
                 let record = match record {
